@@ -195,6 +195,7 @@ def c14(res):
     replay_step(res, "lanetail_q", kinds="0,1", modes="straddleall")
     replay_step(res, "lanews_q", kinds="0,1", modes="straddle8")
     call_traces(res)
+    config_traces(res, fam(t, 4000, 60000))
 
 
 def multi(res, invs, depth, kinds=("req", "resp")):
@@ -210,6 +211,7 @@ def c15(res):
     multi(res, ["Conservative"], fam(t, "4", "6"))
     for f in fam(t, ["ext_q", "lines_q", "methods", "versions", "prefaces", "code_q", "reasons", "dict_q"], ["byte_q", "ext_t", "lines_t", "methods", "versions", "prefaces", "code_q", "reasons", "dict_q"]):
         replay_step(res, f, kinds="0,1", modes="cfgs")
+    config_traces(res, fam(t, 4000, 60000))
 
 
 def c16(res):
@@ -233,18 +235,44 @@ def c17(res):
     call_traces(res)
 
 
+NOSTD_FLAGSETS = {
+    "plain": [],
+    "native": ["-C", "target-cpu=native"],          # every target feature this host has (bmi, lzcnt, popcnt, avx2, avx512...)
+    "sse42": ["-C", "target-feature=+sse4.2"],
+    "avx2": ["-C", "target-feature=+avx2"],
+    "bitmanip": ["-C", "target-feature=+bmi1,+bmi2,+lzcnt,+popcnt"],
+    "opt-s": ["-C", "opt-level=s"],
+    "opt-1-dbg": ["-C", "opt-level=1", "-C", "debug-assertions=on", "-C", "overflow-checks=on"],
+}
+
+
 def nostd_link(res):
-    """with `std` off the crate must link into a program without std and without an allocator"""
+    """with `std` off the crate must link into a program without std and without an allocator,
+    under every code-generation switch a user may pass (cfg(target_feature) arms are code too)"""
     d = os.path.join(HARNESS, "nostd-link")
-    r = sh(["cargo", "build", "--offline", "--release"], cwd=d, env={"CARGO_NET_OFFLINE": "true"}, timeout=900, check=False)
-    ok = r.returncode == 0
-    res.evaluations += 1
-    res.extra["no_std_link"] = {"linked": ok, "what": "#![no_std] #![no_main] program, panic=abort, no global allocator, httparse with default-features=false, all five entry points referenced"}
-    if not ok:
-        out = (r.stdout or "")[-1500:]
-        res.violation("with the std feature disabled the crate does not link into a program without std / without an allocator: " + out[-400:],
-                      {"kind": "nostd-link", "key": "nostd-link", "output": out})
-    log("  [link] no_std, allocator-less program links: %s" % ok)
+    base = ["-C", "link-arg=-nostartfiles", "-C", "link-arg=-lc"]
+    procs = []
+    for name, flags in NOSTD_FLAGSETS.items():
+        cfgarg = "target.x86_64-unknown-linux-gnu.rustflags=%s" % json.dumps(base + flags)
+        cmd = ["cargo", "build", "--offline", "--release", "--target-dir", os.path.join("target", "fs-" + name), "--config", cfgarg]
+        procs.append((name, flags, subprocess.Popen(cmd, cwd=d, env=dict(os.environ, CARGO_NET_OFFLINE="true"), stdout=subprocess.PIPE, stderr=subprocess.STDOUT, text=True, errors="replace")))
+    linked = {}
+    for name, flags, p in procs:
+        try:
+            out, _ = p.communicate(timeout=900)
+        except subprocess.TimeoutExpired:
+            p.kill()
+            raise ToolError("no_std link build timed out (%s)" % name)
+        ok = p.returncode == 0
+        linked[name] = ok
+        res.evaluations += 1
+        if not ok:
+            out = (out or "")[-1500:]
+            res.violation("with the std feature disabled the crate does not build / link into a program without std and without an allocator (rustc flags %s): %s" % (" ".join(flags) or "none", out[-400:]),
+                          {"kind": "nostd-link", "key": "nostd-link:" + name, "flags": flags, "output": out})
+    res.extra["no_std_link"] = {"linked": all(linked.values()), "per_flag_set": linked,
+                                "what": "#![no_std] #![no_main] program, panic=abort, no global allocator, httparse with default-features=false, all five entry points referenced"}
+    log("  [link] no_std, allocator-less program links: %s" % linked)
 
 
 def c19(res):
@@ -445,8 +473,10 @@ def c13(res):
         mc_step(res, "runtime-race-cpu%d" % cpu, "Runtime",
                 "SPECIFICATION RSpec\nCONSTANTS\n  Threads = %s\n  Calls = 2\n  Cpu = %d\nINVARIANT DispatchIsDetected CellIsZeroOrDetected AtDispatch\nCHECK_DEADLOCK FALSE\n"
                 % (fam(t, "{1, 2, 3}", "{1, 2, 3, 4}"), cpu), workers=8)
+    runtime_inductive(res)
     build_matrix(res, profiles=fam(t, ("release",), ("release", "debug")))
     race_traces(res, fam(t, 160, 2000))
+    ambient_step(res, family="versions", modes="places")
     lf = fam(t, "lane_q", "lane_t")
     replay_step(res, lf, modes="alignall")
     replay_step(res, lf, modes="places", baseline=True)
@@ -715,6 +745,38 @@ def session_traces(res, sessions):
     shutil.rmtree(wd, ignore_errors=True)
 
 
+def config_traces(res, sessions):
+    """the ParserConfig builder: Config.tla model-checked, recorded builder histories validated by TraceConfig"""
+    mc_step(res, "config-builder", "MCConfig", "SPECIFICATION CSpec\nINVARIANT TypeOK\nPROPERTIES OneOptionPerStep CloneIndependent\nCHECK_DEADLOCK FALSE\n", workers=4)
+    wd = os.path.join(WORK, "run", "%s-%s" % (res.prop, res.tier), "config")
+    shutil.rmtree(wd, ignore_errors=True)
+    os.makedirs(wd)
+    out = os.path.join(wd, "cfg")
+    r = run_driver(["config", "--out", out, "--sessions", str(sessions), "--shards", str(NCPU), "--seed", str(res.seed)])
+    if r.returncode != 0:
+        res.violation("the code under test crashed during a builder history (rc=%d)" % r.returncode,
+                      {"kind": "config-crash", "key": "config-crash", "stderr": r.stderr[-400:]})
+        return
+    info = json.loads(r.stdout.strip().splitlines()[-1])
+    files = [out + ".%d" % i for i in range(NCPU)]
+    results = validate_traces(res, "config", "TraceConfig", TRACE_CFG, files, timeout=1200)
+    res.traces += info["sessions"]
+    res.evaluations += info["events"]
+    res.nontrivial += info["sessions"]
+    for tf, ok, idx, n, inv in results:
+        if ok:
+            continue
+        sl, rel = trace_slice(tf, idx, start_ev=("history",))
+        ev = json.loads(sl[rel - 1]) if 0 < rel <= len(sl) else {}
+        msg = ("after this builder history the configuration does not hold the option set the setters describe: event %d (%s) "
+               "is not what the specification computes for it (history: %s)" % (rel, json.dumps(ev)[:200], " ".join(
+                   "%s%s" % (json.loads(x).get("ev"), (":%s=%s" % (json.loads(x).get("o"), json.loads(x).get("v"))) if json.loads(x).get("ev") in ("set", "get") else "") for x in sl[:rel])[:400]))
+        res.violation(msg, {"kind": "config", "events": sl[:rel], "key": "config:" + json.dumps(sl[:rel])[:300]})
+    if len(res.samples) < 8:
+        res.samples.append({"config_trace_head": open(files[0]).read().splitlines()[:6]})
+    shutil.rmtree(wd, ignore_errors=True)
+
+
 def c18(res):
     t = res.tier
     for k in ("req", "resp"):
@@ -820,6 +882,14 @@ def cursor_inductive(res):
     apalache_step(res, "cursor-reads-inside", "ApaCursor", "IndInit", "ReadsInside", length=1)
 
 
+def runtime_inductive(res):
+    """the backend cell for an unbounded number of calls (Apalache, inductive)"""
+    apalache_step(res, "runtime-base", "ApaRuntime", "RInit", "IndInv", length=0)
+    apalache_step(res, "runtime-step", "ApaRuntime", "IndInit", "IndInv", length=1)
+    apalache_step(res, "runtime-dispatch", "ApaRuntime", "IndInit", "DispatchIsDetected", length=1)
+    apalache_step(res, "runtime-control", "ApaRuntime", "IndInit", "IndInv", nxt="NextBroken", length=1, expect_violation=True)
+
+
 CALL_PARTS = {
     "C01": ('{}', "{0, 1, 2, 3}"),
     "C03": ('{"n"}', "{0, 1, 2, 3}"),
@@ -829,7 +899,7 @@ CALL_PARTS = {
     "C09": ('{"st", "n", "digits"}', "{3}"),
     "C10": ('{"err"}', "{0, 1, 2}"),
     "C14": ('{"st", "headers"}', "{0, 1}"),
-    "C16": ('{"entries", "st", "count"}', "{0, 1}"),
+    "C16": ('{"entries", "st", "count"}', "{0, 1, 2}"),
     "C17": ('{"st", "count", "err", "slots"}', "{0, 1, 2}"),
     "C19": ('{"allocs"}', "{0, 1, 2, 3}"),
 }
